@@ -135,6 +135,11 @@ func (p *PFCPIface) VerifPools() map[string]int {
 	out["teid_held"] = len(g.usedMap)
 	g.lock.Unlock()
 
+	if u, ok := p.fp.(*UP4); ok {
+		u.stateMu.RLock()
+		defer u.stateMu.RUnlock()
+	}
+
 	if u, ok := p.fp.(*UP4); ok && len(u.counters) == 2 && u.counters[0].counterIDsPool != nil {
 		out["ctr_free"] = u.counters[preQosCounterID].counterIDsPool.Cardinality()
 		out["ctr_cap"] = int(u.counters[preQosCounterID].maxSize)
